@@ -154,11 +154,18 @@ func RuleSpecs(thorough bool) ([]*spec.Spec, map[string][]RuleCase) {
 			{"NestedOneofWords", "nested_oneof", spec.M("NestedOneofWords", append(common(), txt(), img())...).WithOneof(&spec.Oneof{Name: "content", Config: true, Disc: "kind"})},
 			{"PlainOneofWords", "plain_oneof", spec.M("PlainOneofWords", append(common(), txt(), img())...).WithOneof(&spec.Oneof{Name: "content"})},
 			{"UnwrapSiblingWords", "unwrap_sibling", spec.M("UnwrapSiblingWords", append(common(), spec.Msg("bars_by_key", "BarList").Map())...)},
+			// schemas built as allOf: a flattened child (itself required, with and without prefix) and a flattened discriminated oneof
+			{"FlattenWords", "flatten", spec.M("FlattenWords", append(common(), spec.Msg("home_addr", "Addr").FlatP("home_").R("required:true"), spec.Msg("geo", "Geo").Flat().R("required:true"), spec.Msg("work_addr", "Addr").FlatP("work_"))...)},
+			{"FlatOneofWords", "flat_oneof", spec.M("FlatOneofWords", append(common(), txt(), img())...).WithOneof(&spec.Oneof{Name: "content", Config: true, Disc: "type", Flatten: true})},
+			// required on fields of every structural kind
+			{"StructuralWords", "structural", spec.M("StructuralWords", append(common(), spec.Msg("main_addr", "Addr").R("required:true"), spec.F("tag_list", "string").Rep().R("required:true"),
+				spec.F("attr_map", "string").Map().R("required:true"), spec.Msg("seen_at", ".google.protobuf.Timestamp").R("required:true"), spec.F("raw_data", "bytes").R("required:true"), spec.F("is_set", "bool").R("required:true"))...)},
 		}
 		// required on fields with explicit presence: proto3 optional and members of a real oneof
 		presence := spec.M("PresenceWords", spec.F("nick_name", "string").Opt().R("required:true"), spec.F("plain_name", "string").R("required:true"), spec.F("free_text", "string").Opt(),
 			spec.F("email_addr", "string").In("contact").R("required:true"), spec.F("phone_no", "string").In("contact")).WithOneof(&spec.Oneof{Name: "contact"})
-		msgs := []*spec.Message{spec.M("TextContent", spec.F("body", "string")), spec.M("ImageContent", spec.F("url", "string")), spec.M("BarList", spec.F("values", "int32").Rep().Unw()), spec.M("Out", spec.F("ok", "bool"))}
+		msgs := []*spec.Message{spec.M("TextContent", spec.F("body", "string")), spec.M("ImageContent", spec.F("url", "string")), spec.M("BarList", spec.F("values", "int32").Rep().Unw()), spec.M("Out", spec.F("ok", "bool")),
+			spec.M("Addr", spec.F("street", "string"), spec.F("zip", "string")), spec.M("Geo", spec.F("lat", "double"), spec.F("lon", "double"))}
 		svc := spec.Svc("RuleShapeService", "/rs")
 		for _, sh := range shapes {
 			msgs = append(msgs, sh.m)
